@@ -732,6 +732,10 @@ func (x *exec) run() {
 			x.tr.Add(ev)
 		case "begin":
 			put0, del0 := x.counters()
+			if x.mux == nil { // the engine did not come up: there is no interface
+				x.tr.Add(vh.Ev{"ev": "call", "ep": o.Ep, "method": "PUT", "arg": argOf(o), "code": 0, "codes": []int{0}, "obs": x.obs(put0, del0)})
+				continue
+			}
 			g := &gated{key: o.U, point: o.Point, nth: o.Nth, park: make(chan struct{}), release: make(chan struct{}),
 				done: make(chan struct{}), w: &rw{hdr: http.Header{}}}
 			x.byKey[o.U] = g
@@ -771,8 +775,16 @@ func (x *exec) run() {
 		case "finish":
 			put0, del0 := x.counters()
 			g := x.byKey[o.U]
+			if g == nil && x.mux == nil {
+				continue
+			}
 			if g == nil {
 				vh.Die("history %d: finish of unknown update %s", h.ID, o.U)
+			}
+			if !g.parked { // it never reached its yield point: the begin event already carries the answer
+				<-g.done
+				delete(x.byKey, o.U)
+				continue
 			}
 			if g.parked {
 				select {
